@@ -178,3 +178,37 @@ Lemma flag_bits_distinct :
   Z.land FLAG_PERMISSIONS FLAG_AMTIME = 0 /\
   0 < FLAG_SIZE /\ 0 < FLAG_UIDGID /\ 0 < FLAG_PERMISSIONS /\ 0 < FLAG_AMTIME.
 Proof. cbv. repeat split. Qed.
+
+(* ---- every kind of target ------------------------------------------------------------------ *)
+(* the four single-purpose requests equal the os.* calls on a regular file (also reached through
+   a symbolic link), on a directory and on a missing name - new state and status alike *)
+Lemma node_chmod now n m : set_node_attr now n (req_chmod m) = os_chmod_node n m.
+Proof. destruct n; reflexivity. Qed.
+Lemma node_chown now n u g : set_node_attr now n (req_chown u g) = os_chown_node n u g.
+Proof. destruct n; reflexivity. Qed.
+Lemma node_utime now n t1 t2 : set_node_attr now n (req_utime t1 t2) = os_utime_node n t1 t2.
+Proof. destruct n; reflexivity. Qed.
+Lemma node_truncate now n k : set_node_attr now n (req_truncate k) = os_truncate_node now n k.
+Proof. destruct n; reflexivity. Qed.
+
+Lemma missing_never_ok now a :
+  any_step a = true -> set_node_attr now NMissing a = (NMissing, SFTP_NO_SUCH_FILE).
+Proof. intros H. cbn. now rewrite H. Qed.
+
+Lemma dir_resize_fails now f a :
+  has a FLAG_SIZE = true -> snd (set_node_attr now (NDir f) a) = SFTP_FAILURE.
+Proof. intros H. cbn. now rewrite H. Qed.
+
+Lemma ok_only_if_applied now n a n' :
+  set_node_attr now n a = (n', SFTP_OK) ->
+  match n with
+  | NFile f => n' = NFile (set_file_attr now f a)
+  | NDir f => has a FLAG_SIZE = false /\ n' = NDir (step_utime a (step_chown a (step_chmod a f)))
+  | NMissing => any_step a = false
+  end.
+Proof.
+  destruct n as [f|f|]; cbn.
+  - intros H. now inversion H.
+  - destruct (has a FLAG_SIZE); intros H; inversion H. now split.
+  - destruct (any_step a); intros H; inversion H. reflexivity.
+Qed.
